@@ -36,6 +36,51 @@ def flat(node):
     return nows(src(node)).replace("(", "").replace(")", "")
 
 
+def r10(R, m):
+    """An angle difference that is then limited symmetrically (numpy.clip(d, -s, s)) or tested with abs() has to be reduced to the
+    interval around zero: d - 360*round(d/360) (or (d + 180) % 360 - 180).  fmod(d, 360) keeps the sign of d and Python's % / numpy.mod
+    give [0, 360): an error of -0.1 degree seen as 359.9 (observed omega on the 0..360 branch, computed on -180..180) is clipped to
+    +slop instead of -0.1.  Positive evidence only: a one-sided reduction by 360 reaches a symmetric clip."""
+    R.rule("C09.R10", "refinegrains: an angle difference that feeds a symmetric clip (numpy.clip(d, -s, s)) is wrapped to (-180, 180] with "
+                      "d - 360*round(d/360); fmod(d, 360) / d % 360 / numpy.mod leave differences near +-360 (0..360 scans against the "
+                      "-180..180 branch of the computed omega) and the floated omega is then wrong by the clip width")
+    n = 0
+
+    def period(e):
+        return isinstance(e, ast.Constant) and isinstance(e.value, (int, float)) and float(e.value) in (360.0, 180.0)
+    for q, fn in sorted(m.funcs.items()):
+        if not q.startswith("refinegrains."):
+            continue
+        cfg = None
+        for c in ast.walk(fn):
+            if not (isinstance(c, ast.Call) and (pyfacts.dotted(c.func) or "").split(".")[-1] == "clip" and len(c.args) == 3):
+                continue
+            lo, hi = c.args[1], c.args[2]
+            if not (isinstance(lo, ast.UnaryOp) and isinstance(lo.op, ast.USub) and nows(src(lo.operand)) == nows(src(hi))):
+                continue
+            if not isinstance(c.args[0], ast.Name):
+                continue
+            cfg = cfg or pyfacts.PyCFG(fn)
+            nd = cfg.node_of(c)
+            if nd is None:
+                continue
+            for v, g in cfg.reaching(nd, c.args[0].id):
+                if v is None or v == "unknown":
+                    continue
+                n += 1
+                one_sided = None
+                if isinstance(v, ast.Call) and (pyfacts.dotted(v.func) or "").split(".")[-1] in ("fmod", "mod", "remainder") and len(v.args) == 2 and period(v.args[1]):
+                    one_sided = src(v)
+                if isinstance(v, ast.BinOp) and isinstance(v.op, ast.Mod) and period(v.right):
+                    one_sided = src(v)
+                R.check(one_sided is None, "C09.R10", REL, v.lineno, q, "%s = %s" % (c.args[0].id, src(v)[:60]),
+                        "the difference '%s' is reduced with a one-sided remainder (%s) and then clipped to +-%s: a small negative error that "
+                        "appears as 360 - e (observed and computed omega on different branches) stays near 360 (fmod keeps the sign, %% gives "
+                        "[0, 360)) and is clipped to +%s, so the floated omega and everything refined from it are off" % (c.args[0].id, (one_sided or "")[:40], src(hi), src(hi)),
+                        desc="%s:%s %s is wrapped symmetrically before clip(-s, s)" % (REL, q, c.args[0].id))
+    R.floor("C09.R10", 1)
+
+
 def run(R):
     m = pyfacts.module(R, REL)
     if R.want("C09.R1"):
@@ -57,6 +102,8 @@ def run(R):
         r8(R, m)
     if R.want("C09.R9"):
         r9(R)
+    if R.want("C09.R10"):
+        r10(R, m)
     if R.want("C09.R7"):
         # the refinement's g-vectors come from two routes that must be one function: the C kernel used by assignlabels and the
         # Python chain used by compute_gv (omega passed already multiplied by omegasign, grain origin from t_x,t_y,t_z).
